@@ -484,7 +484,6 @@ pub fn bal(
     let block_index = {
         let block = control_flow_graph.new_block()?;
 
-        block.assign(scalar("$ra", 32), expr_const(instruction.address + 8, 32));
         block.branch(expr_const(operand.imm() as u64, 32));
 
         block.index()
@@ -496,65 +495,30 @@ pub fn bal(
     Ok(())
 }
 
-pub fn bgezal(
-    control_flow_graph: &mut ControlFlowGraph,
-    instruction: &capstone::Instr,
-) -> Result<(), Error> {
+/// The condition of bgezal (`negate` = false: rs >= 0) / bltzal (rs < 0). It is
+/// evaluated before the delay slot and latched in "branching_condition".
+pub fn and_link_condition(instruction: &capstone::Instr, less_than: bool) -> Result<Expr, Error> {
     let detail = details(instruction)?;
-
     let lhs = get_register(detail.operands[0].reg())?.expression();
-    let zero = expr_const(0, 32);
-    let target = expr_const(detail.operands[1].imm() as u64, 32);
-
-    let head_index = {
-        let block = control_flow_graph.new_block()?;
-        block.assign(scalar("$ra", 32), expr_const(instruction.address + 8, 32));
-        block.index()
-    };
-
-    let true_index = {
-        let block = control_flow_graph.new_block()?;
-
-        block.branch(target);
-
-        block.index()
-    };
-
-    let terminating_index = { control_flow_graph.new_block()?.index() };
-
-    let false_condition = Expr::cmplts(lhs, zero)?;
-
-    control_flow_graph.conditional_edge(
-        head_index,
-        true_index,
-        Expr::cmpeq(false_condition.clone(), expr_const(0, 1))?,
-    )?;
-
-    control_flow_graph.conditional_edge(head_index, terminating_index, false_condition)?;
-
-    control_flow_graph.unconditional_edge(true_index, terminating_index)?;
-
-    control_flow_graph.set_entry(head_index)?;
-    control_flow_graph.set_exit(terminating_index)?;
-
-    Ok(())
+    let lt = Expr::cmplts(lhs, expr_const(0, 32))?;
+    if less_than {
+        Ok(lt)
+    } else {
+        Expr::cmpeq(lt, expr_const(0, 1))
+    }
 }
 
-pub fn bltzal(
+/// bgezal and bltzal after the delay slot: $ra and "branching_condition" were
+/// written before it (see mod.rs, link_graph).
+fn branch_and_link_on_latched_condition(
     control_flow_graph: &mut ControlFlowGraph,
     instruction: &capstone::Instr,
 ) -> Result<(), Error> {
     let detail = details(instruction)?;
 
-    let lhs = get_register(detail.operands[0].reg())?.expression();
-    let zero = expr_const(0, 32);
     let target = expr_const(detail.operands[1].imm() as u64, 32);
 
-    let head_index = {
-        let block = control_flow_graph.new_block()?;
-        block.assign(scalar("$ra", 32), expr_const(instruction.address + 8, 32));
-        block.index()
-    };
+    let head_index = { control_flow_graph.new_block()?.index() };
 
     let true_index = {
         let block = control_flow_graph.new_block()?;
@@ -566,7 +530,7 @@ pub fn bltzal(
 
     let terminating_index = { control_flow_graph.new_block()?.index() };
 
-    let true_condition = Expr::cmplts(lhs, zero)?;
+    let true_condition = expr_scalar("branching_condition", 1);
     let false_condition = Expr::cmpeq(true_condition.clone(), expr_const(0, 1))?;
 
     control_flow_graph.conditional_edge(head_index, true_index, true_condition)?;
@@ -577,6 +541,20 @@ pub fn bltzal(
     control_flow_graph.set_exit(terminating_index)?;
 
     Ok(())
+}
+
+pub fn bgezal(
+    control_flow_graph: &mut ControlFlowGraph,
+    instruction: &capstone::Instr,
+) -> Result<(), Error> {
+    branch_and_link_on_latched_condition(control_flow_graph, instruction)
+}
+
+pub fn bltzal(
+    control_flow_graph: &mut ControlFlowGraph,
+    instruction: &capstone::Instr,
+) -> Result<(), Error> {
+    branch_and_link_on_latched_condition(control_flow_graph, instruction)
 }
 
 pub fn break_(
@@ -830,7 +808,6 @@ pub fn jal(
     let block_index = {
         let block = control_flow_graph.new_block()?;
 
-        block.assign(scalar("$ra", 32), expr_const(instruction.address + 8, 32));
         block.branch(expr_const(detail.operands[0].imm() as u64, 32));
 
         block.index()
@@ -842,29 +819,33 @@ pub fn jal(
     Ok(())
 }
 
+/// The register `jalr` links: `jalr rs` implies $ra, `jalr rd, rs` names it.
+pub fn jalr_link(instruction: &capstone::Instr) -> Result<Scalar, Error> {
+    let detail = details(instruction)?;
+    if detail.op_count >= 2 {
+        Ok(get_register(detail.operands[0].reg())?.scalar())
+    } else {
+        Ok(scalar("$ra", 32))
+    }
+}
+
 pub fn jalr(
     control_flow_graph: &mut ControlFlowGraph,
     instruction: &capstone::Instr,
 ) -> Result<(), Error> {
     let detail = details(instruction)?;
 
-    // `jalr rs` (rd = $ra implied) or `jalr rd, rs`
-    let (link, target) = if detail.op_count >= 2 {
-        (
-            get_register(detail.operands[0].reg())?.scalar(),
-            get_register(detail.operands[1].reg())?.expression(),
-        )
+    // `jalr rs` (rd = $ra implied) or `jalr rd, rs`. The link register is
+    // written before the delay slot (see mod.rs, link_graph).
+    let target = if detail.op_count >= 2 {
+        get_register(detail.operands[1].reg())?.expression()
     } else {
-        (
-            scalar("$ra", 32),
-            get_register(detail.operands[0].reg())?.expression(),
-        )
+        get_register(detail.operands[0].reg())?.expression()
     };
 
     let block_index = {
         let block = control_flow_graph.new_block()?;
 
-        block.assign(link, expr_const(instruction.address + 8, 32));
         block.branch(target);
 
         block.index()
